@@ -178,6 +178,10 @@ def judge(ctx, s1, s2, tb, fb):
             # its own by the postcondition, so anything remembered from an earlier call shows up
             A.compute_affinity(g1, g2, time_buffer=tb * 5, freq_buffer=fb * 3)
             A.compute_affinity(g1, g2, time_buffer=tb, freq_buffer=fb)
+            # ... and after one of them has been moved in place
+            geoms.edit_in_place(g2, ctx.rng)
+            A.compute_affinity(g1, g2, time_buffer=tb, freq_buffer=fb)
+            g2 = geoms.build(s2, how="dict")
     except Exception as e:
         ctx.violate_exc("raises", f"raises:{type(e).__name__}", e, spec=spec)
         return
